@@ -715,7 +715,7 @@ for _n in ("sub", "subn", "match", "fullmatch", "search", "findall", "split", "f
 def sx_call(f, *a, **k):
     if ACCESS_OBSERVER is not None and type(f) is _BuiltinMethod:
         _observe(f.__self__, "w" if f.__name__ in _MUTATORS else "r")
-    if type(f) is _BuiltinMethod and type(f.__self__) is _re.Pattern and _anysym(a):
+    if type(getattr(f, "__self__", None)) is _re.Pattern and _anysym(a):          # (a compiled pattern's methods are of type builtin_method)
         r = _re_dispatch(f.__name__, f.__self__, a, k)
         if r is not NotImplemented:
             return r
